@@ -63,6 +63,10 @@ func (p *c13Prop) Gen(r *Rng, i int, tier string) interface{} {
 		}
 		return &c13Case{Kind: "gated", Provider: pr}
 	}
+	if i%8 == 4 {
+		// a reconnect whose backlog load races with fresh traffic (persistence gate)
+		return &c13Case{Kind: "loadrace", N: 2 + r.Intn(4), Topics: 1 + r.Intn(3), QoS: []int{r.Intn(2)}, SubVer: []int{4, 5}[r.Intn(2)]}
+	}
 	c := &c13Case{Kind: "stream", Pubs: 1 + r.Intn(3), Topics: 1 + r.Intn(3), Subs: 1 + r.Intn(3)}
 	c.N = 20 + r.Intn(60)
 	if tier == "thorough" {
@@ -172,6 +176,9 @@ func (p *c13Prop) Run(ci interface{}) interface{} {
 	}
 	if c.Kind == "closerace" {
 		return p.runCloseRace(c)
+	}
+	if c.Kind == "loadrace" {
+		return p.runLoadRace(c)
 	}
 	obs := &c13Obs{}
 	b, err := NewBroker(BrokerOpts{})
@@ -367,6 +374,130 @@ func (p *c13Prop) runCloseRace(c *c13Case) interface{} {
 	return obs
 }
 
+// loadrace: a durable subscriber S is offline while messages 1..N of one publisher and topic are persisted for it
+// (QoS = QoS[0], 0 or 1). S reconnects; the harness holds the start-up load of that backlog (a slow backend) while
+// the publisher sends N+1..N+K. On the new connection the stream must arrive as 1..N+K.
+func (p *c13Prop) runLoadRace(c *c13Case) interface{} {
+	obs := &c13Obs{}
+	q := 0
+	if len(c.QoS) > 0 {
+		q = c.QoS[0]
+	}
+	mp, err := persistenceMem.Load(nil, nil)
+	if err != nil {
+		obs.Err = err.Error()
+		return obs
+	}
+	gate := newPersistGate(mp)
+	defer gate.Release()
+	b, err := NewBroker(BrokerOpts{Persist: gate})
+	if err != nil {
+		obs.Err = err.Error()
+		return obs
+	}
+	defer b.Drop()
+	ver := mqttp.ProtocolV311
+	if c.SubVer == 5 {
+		ver = mqttp.ProtocolV50
+	}
+	forever := uint32(0xFFFFFFFF)
+	connectS := func() (*Auto, error) {
+		cl := b.Dial()
+		o := ConnectOpts{ID: "S", Ver: ver, Clean: false}
+		if ver == mqttp.ProtocolV50 {
+			o.Expiry = &forever
+		}
+		if _, err := cl.Connect(o); err != nil {
+			return nil, err
+		}
+		return cl.Auto(false), nil
+	}
+	s, err := connectS()
+	if err != nil {
+		obs.Err = "S: " + err.Error()
+		return obs
+	}
+	_ = s.SendL(mkSubscribe(ver, 1, []string{"t/#"}, []byte{byte(q)}))
+	if !s.WaitFor(5*time.Second, func() bool { return len(s.Others) >= 1 }) {
+		obs.Err = "no suback"
+		return obs
+	}
+	wc := b.Dial()
+	if _, err := wc.Connect(ConnectOpts{ID: "W", Ver: mqttp.ProtocolV311, Clean: true}); err != nil {
+		obs.Err = "W: " + err.Error()
+		return obs
+	}
+	w := wc.Auto(false)
+	_ = w.SendL(mkSubscribe(mqttp.ProtocolV311, 1, []string{"w"}, []byte{0}))
+	if !w.WaitFor(5*time.Second, func() bool { return len(w.Others) >= 1 }) {
+		obs.Err = "W: no suback"
+		return obs
+	}
+	pc := b.Dial()
+	if _, err := pc.Connect(ConnectOpts{ID: "pub0", Ver: mqttp.ProtocolV311, Clean: true}); err != nil {
+		obs.Err = "P: " + err.Error()
+		return obs
+	}
+	pa := pc.Auto(false)
+	d0 := b.Met.Disconnected()
+	s.Close()
+	deadline := time.Now().Add(5 * time.Second)
+	for time.Now().Before(deadline) && b.Met.Disconnected() == d0 {
+		time.Sleep(time.Millisecond)
+	}
+	time.Sleep(20 * time.Millisecond)
+	pid := uint16(0)
+	send := func(seq int) {
+		pid++
+		_ = pa.SendL(mkPublish(mqttp.ProtocolV311, "t/0", []byte{0, 0, byte(q), byte(seq >> 8), byte(seq)}, byte(q), false, pid))
+	}
+	n, k := c.N, c.Topics
+	for i := 1; i <= n; i++ {
+		send(i)
+	}
+	_ = pa.SendL(mkPublish(mqttp.ProtocolV311, "w", []byte{1}, 0, false, 0))
+	if !w.WaitFor(5*time.Second, func() bool { return len(w.Pubs) >= 1 }) {
+		obs.Err = "routing barrier"
+		return obs
+	}
+	gate.ArmLoad("S", q > 0)
+	type cres struct {
+		a   *Auto
+		err error
+	}
+	done := make(chan cres, 1)
+	go func() { a, err := connectS(); done <- cres{a, err} }()
+	entered := gate.WaitEntered(3 * time.Second)
+	for i := n + 1; i <= n+k; i++ {
+		send(i)
+	}
+	time.Sleep(100 * time.Millisecond) // they are routed: queued behind the backlog, or held until it is loaded
+	gate.Release()
+	var cr cres
+	select {
+	case cr = <-done:
+	case <-time.After(6 * time.Second):
+		cr.err = fmt.Errorf("no CONNACK")
+	}
+	if cr.err != nil || !entered {
+		obs.Err = fmt.Sprintf("reconnect: %v (load reached: %v)", cr.err, entered)
+		return obs
+	}
+	s2 := cr.a
+	obs.Expected = n + k
+	s2.WaitFor(5*time.Second, func() bool { return len(s2.Pubs) >= n+k })
+	s2.mu.Lock()
+	for _, m := range s2.Pubs {
+		pl := m.Payload()
+		if len(pl) == 5 && !m.Dup() {
+			obs.Arr = append(obs.Arr, [5]int{0, int(pl[0]), int(pl[1]), int(pl[2]), int(pl[3])<<8 | int(pl[4])})
+			obs.Got++
+		}
+	}
+	s2.mu.Unlock()
+	return obs
+}
+
 func (p *c13Prop) Suspect(oi interface{}) bool {
 	o := oi.(*c13Obs)
 	return o.Got < o.Expected
@@ -390,6 +521,9 @@ func (p *c13Prop) Class(ci interface{}, oi interface{}) (string, bool) {
 	}
 	if c.Kind == "closerace" {
 		return "closerace", true
+	}
+	if c.Kind == "loadrace" {
+		return "loadrace", true
 	}
 	return fmt.Sprintf("stream-p%d-t%d-s%d-rm%d", c.Pubs, c.Topics, c.Subs, c.RM), c.N > 1
 }
